@@ -518,7 +518,7 @@ func RunC15Traces(ctx *core.Ctx) {
 	procsList := []int{1, 2, 3, 4, 8, 16}
 	jitters := []int{0, 60, 300, 800}
 	sessions := ctx.Scale(300, 4000)
-	deadline := time.Now().Add(time.Duration(ctx.Scale(40, 400)) * time.Second)
+	deadline := time.Now().Add(min(time.Duration(ctx.Scale(40, 400))*time.Second, c15Remaining(ctx)))
 	for s := 0; s < sessions && time.Now().Before(deadline); s++ {
 		procs := procsList[s%len(procsList)]
 		jitter := jitters[(s/len(procsList))%len(jitters)]
@@ -818,7 +818,7 @@ func c15Session(ctx *core.Ctx, d interface {
 	// lock (a state nothing but another of these goroutines could end); as long as one of them is
 	// runnable, running or sleeping the session is merely slow and we keep waiting. A session still
 	// unfinished after the (generous) cap is reported as an observation and ends the sub-check.
-	if verdict, dump := c15Await(done, 20*time.Minute, c15SessionGoroutine); verdict != "done" {
+	if verdict, dump := c15Await(done, max(3*time.Minute, c15Remaining(ctx)), c15SessionGoroutine); verdict != "done" {
 		logs := parquet.VerifAsyncTraceStop()
 		var detail []any
 		for i, in := range insts {
@@ -1022,7 +1022,7 @@ func c15GoEnv() []string {
 }
 
 // c15BuildRace builds cmd/pqrace with the race detector against the same tree as this binary.
-func c15BuildRace() (string, string, error) {
+func c15BuildRace(limit time.Duration) (string, string, error) {
 	root, err := os.Getwd()
 	if err != nil {
 		return "", "", err
@@ -1033,7 +1033,7 @@ func c15BuildRace() (string, string, error) {
 		return "", "", fmt.Errorf("harness module file not found (%s): run through ./check", modfile)
 	}
 	bin := filepath.Join(root, ".build", "pqrace")
-	c, cancel := context.WithTimeout(context.Background(), 15*time.Minute)
+	c, cancel := context.WithTimeout(context.Background(), min(15*time.Minute, limit))
 	defer cancel()
 	cmd := exec.CommandContext(c, "go", "build", "-race", "-modfile", modfile, "-tags", "verif", "-o", bin, "./cmd/pqrace")
 	cmd.Dir = harness
@@ -1054,6 +1054,11 @@ func RunC15Scenarios(ctx *core.Ctx) {
 			continue
 		}
 		for s := 0; s < seeds; s++ {
+			if c15Remaining(ctx) < 0 {
+				ctx.Hist("skipped_for_time", "scenario "+sc.Name)
+				ctx.Observe("scenarios-skipped-for-time", "the time budget of the harness was used up (slow machine): some in-process scenario runs were skipped", nil)
+				break
+			}
 			seed := base + int64(s)
 			a, b, err := func() (a, b string, err error) {
 				defer func() {
@@ -1073,7 +1078,12 @@ func RunC15Scenarios(ctx *core.Ctx) {
 		}
 	}
 	// ---- the same scenarios in a -race build, as subprocesses
-	bin, out, err := c15BuildRace()
+	if c15Remaining(ctx) < 2*time.Minute {
+		ctx.Hist("race_build", "skipped-for-time")
+		ctx.Observe("race-build-timeout", "no time left for the -race build (slow machine): the scenarios ran without the race detector only", nil)
+		return
+	}
+	bin, out, err := c15BuildRace(c15Remaining(ctx) - time.Minute)
 	if errors.Is(err, context.DeadlineExceeded) {
 		// a slow machine is not a finding: the race half of the sub-check did not run
 		ctx.Hist("race_build", "timeout")
@@ -1095,7 +1105,13 @@ func RunC15Scenarios(ctx *core.Ctx) {
 				defer wg.Done()
 				sem <- struct{}{}
 				defer func() { <-sem }()
-				c15RaceRun(ctx, bin, name, doc, base, seeds, procs, timeout)
+				left := c15Remaining(ctx)
+				if left < 30*time.Second {
+					ctx.Hist("skipped_for_time", "race "+name)
+					ctx.Observe("race-run-skipped-for-time", "the time budget of the harness was used up (slow machine): some -race scenario runs were not started", nil)
+					return
+				}
+				c15RaceRun(ctx, bin, name, doc, base, seeds, procs, min(timeout, left))
 			}(sc.Name, sc.Doc, procs)
 		}
 	}
@@ -1193,6 +1209,18 @@ func (b *c15SyncBuffer) String() string {
 	b.mu.Lock()
 	defer b.mu.Unlock()
 	return b.b.String()
+}
+
+// ---------------------------------------------------------------- time budget (coverage only)
+
+// c15Start / c15Remaining: the whole C15 harness run has to end before ./check gives up on it
+// (props/C15.json timeout_s). Work that has not been started when the soft budget is used up is
+// skipped and reported as an observation; this reduces coverage on a slow machine, it never turns
+// into a failure.
+var c15Start = time.Now()
+
+func c15Remaining(ctx *core.Ctx) time.Duration {
+	return time.Duration(ctx.Scale(800, 1250))*time.Second - time.Since(c15Start)
 }
 
 // ---------------------------------------------------------------- deadlock vs slowness
